@@ -193,12 +193,15 @@ static void steered_ops(long me)
 		do_notify();
 		t_role = 0;
 	} else if (me == 1) {
-		uint64_t dl = now_ns() + 3000000000ull;
+		uint64_t dl = now_ns() + 5000000000ull;
 		while (!atomic_load(&g_t3_stalled) && now_ns() < dl) usleep(100);
 		int tok = do_enter();
-		do_notify();
+		int h = do_notify();
 		atomic_store(&g_release_t3, 1);
-		usleep(30000);              /* B's work is still in progress */
+		/* B's work is still in progress: it lasts until B's notification block has run (F2) or,
+		 * when the library does not exhibit F2, for half a second */
+		dl = now_ns() + 500000000ull;
+		while (h >= 0 && !atomic_load(&g_ran[h]) && now_ns() < dl) usleep(200);
 		do_leave(tok);
 	}
 	vrt_progress();
@@ -231,7 +234,7 @@ static void steer(struct dispatch_verif_site_s *s, const volatile void *addr, in
 		else if (t_stage == 1 && !on_state) {                /* first access of the list snapshot */
 			t_stage = 2;
 			atomic_store(&g_t3_stalled, 1);
-			uint64_t dl = now_ns() + 3000000000ull;
+			uint64_t dl = now_ns() + 6000000000ull;
 			while (!atomic_load(&g_release_t3) && now_ns() < dl) usleep(100);
 		}
 	}
